@@ -59,7 +59,7 @@ static const char *const damage_names[D_N] = { "truncate", "truncate_after_kth_w
 					       "record_at_read_buffer_limit" };
 
 // hazard groups of *legal* stimuli (a token in SIMK_AVOID switches the group off in the generator)
-enum { HZ_NONE = 0, HZ_PCT, HZ_PREC, HZ_WIDE, HZ_SSS, HZ_N };
+enum { HZ_NONE = 0, HZ_PCT, HZ_PREC, HZ_WIDE, HZ_SSS, HZ_GEN, HZ_N };
 
 static int which;        // 11 or 15: which property's oracle classes may raise violations
 #define VIOL(prop, cls, site, ...) do { if (which == (prop) || (prop) == 0) fail(cls, site, __VA_ARGS__); } while (0)
@@ -115,7 +115,7 @@ static void init(const char *prop)
 }
 
 // ------------------------------------------------------------------ formats (legal stimuli)
-enum Shape { SH_NONE, SH_U, SH_UD, SH_UDD, SH_US, SH_USD, SH_ULS, SH_UF, SH_UQD, SH_UC, SH_USSS, SH_UZ, SH_UP, SH_UDS, SH_USS, SH_FILL };
+enum Shape { SH_NONE, SH_U, SH_UD, SH_UDD, SH_US, SH_USD, SH_ULS, SH_UF, SH_UQD, SH_UC, SH_USSS, SH_UZ, SH_UP, SH_UDS, SH_USS, SH_FILL, SH_GEN, SH_ULD };
 struct Fmt { const char *fmt; int shape; int hazard; };
 static const Fmt FMTS[] = {
 	/* 0 */ { "#%u", SH_U, HZ_NONE },
@@ -148,6 +148,8 @@ static const Fmt FMTS[] = {
 	/* 27 */ { "#%u %300d %300d", SH_UDD, HZ_WIDE },
 	/* 28 */ { "#%u %0500d", SH_UD, HZ_WIDE },
 	/* 29 */ { "#%u %s|%s|%s", SH_USSS, HZ_SSS },          // three strings, the first longer than the line length
+	/* 30 */ { "#%u ", SH_GEN, HZ_GEN },                   // "#%u " followed by a seeded sequence of conversions (make_gen)
+	/* 31 */ { "#%u ld %Lf then %d and %s", SH_ULD, HZ_GEN },
 };
 #define N_FMTS ((int)(sizeof FMTS / sizeof FMTS[0]))
 #define N_BASE_FMTS 23
@@ -155,6 +157,9 @@ static const Fmt FMTS[] = {
 struct Args {
 	unsigned u; int d1, d2; long l; long long q; double f; int c; size_t z; void *p;
 	std::string s1, s2, s3, fill;
+	// SH_GEN: the generated tail of the format, its integer-class arguments (one 8-byte slot each, in order), its
+	// floating-point arguments (in order), the strings some of the slots point to, and the serialized size of it all
+	std::string genfmt; uint64_t G[8]; double D[8]; std::string gs[8]; bool gstr[8]; size_t genser;
 };
 
 static std::string make_str(Rng &r, size_t len)
@@ -178,6 +183,58 @@ static int pick_int(Rng &r)
 {
 	static const int sp[] = { 0, 1, -1, 7, 42, -100, 65535, INT_MAX, INT_MIN, 1000000 };
 	return r.chance(1, 2) ? sp[r.below(10)] : (int)(int32_t)r.u64();
+}
+
+
+// A seeded format: 1..6 conversions from the vocabulary the serializer documents support for (flags, width, precision,
+// length modifiers h hh l ll z t j, d i o u x X c s p e f g a, "%%", "*"), with literal text in between.
+// The call passes every integer-class argument as one 8-byte slot and every double separately (do_log); on x86-64 SysV
+// va_arg walks the two sequences independently, so one call signature serves every generated format.
+#if !defined(__x86_64__)
+#error "the generated-format shape relies on the x86-64 SysV variadic calling convention"
+#endif
+struct Conv { const char *spec; char cls; };
+static const Conv CONVS[] = {
+	{ "%d", 'i' }, { "%i", 'i' }, { "%u", 'i' }, { "%x", 'i' }, { "%X", 'i' }, { "%o", 'i' }, { "%5d", 'i' }, { "%-6d|", 'i' }, { "%05d", 'i' },
+	{ "%+d", 'i' }, { "% d", 'i' }, { "%#x", 'i' }, { "%.3d", 'i' },
+	{ "%hd", 'i' }, { "%hu", 'i' }, { "%hhd", 'i' }, { "%hhu", 'i' }, { "%hx", 'i' },
+	{ "%c", 'c' }, { "%3c", 'c' }, { "%-3c|", 'c' },
+	{ "%ld", 'l' }, { "%lu", 'l' }, { "%lx", 'l' }, { "%li", 'l' }, { "%12ld", 'l' },
+	{ "%lld", 'l' }, { "%llu", 'l' }, { "%llx", 'l' }, { "%#llo", 'l' },
+	{ "%zu", 'l' }, { "%zd", 'l' }, { "%td", 'l' }, { "%jd", 'l' }, { "%ju", 'l' },
+	{ "%f", 'f' }, { "%e", 'f' }, { "%g", 'f' }, { "%.2f", 'f' }, { "%10.3e", 'f' }, { "%G", 'f' }, { "%a", 'f' },
+	{ "%s", 's' }, { "%10s", 's' }, { "%-10s|", 's' }, { "%.3s", '3' }, { "%.*s", 'S' }, { "%*d", 'W' },
+	{ "%p", 'l' }, { "%%", '%' },
+};
+#define N_CONVS ((int)(sizeof CONVS / sizeof CONVS[0]))
+static void make_gen(Rng &r, Args &a)
+{
+	static const char lit[] = "abcxyzABC019 _-.:;,=+()[]<>!?@#$^&~'";
+	a.genfmt.clear(); a.genser = 0;
+	for (int k = 0; k < 8; k++) { a.G[k] = 0; a.D[k] = 0.0; a.gs[k].clear(); a.gstr[k] = false; }
+	int ng = 0, nd = 0, n = (int)r.range(1, 6);
+	for (int k = 0; k < n; k++) {
+		for (int j = (int)r.below(4); j > 0; j--) a.genfmt.push_back(lit[r.below(sizeof lit - 1)]);
+		const Conv &c = CONVS[r.below((uint64_t)N_CONVS)];
+		int need_g = c.cls == 'f' || c.cls == '%' ? 0 : (c.cls == 'S' || c.cls == 'W') ? 2 : 1;
+		if (ng + need_g > 6 || (c.cls == 'f' && nd >= 6)) continue;
+		a.genfmt += c.spec;
+		switch (c.cls) {
+		case 'i': a.G[ng++] = (uint64_t)(int64_t)pick_int(r); a.genser += 4; break;
+		case 'c': a.G[ng++] = (uint64_t)"aZ09 .#"[r.below(7)]; a.genser += 1; break;
+		case 'l': a.G[ng++] = r.chance(1, 2) ? (uint64_t)(int64_t)pick_int(r) : r.u64(); a.genser += 8; break;
+		case 'f': { static const double ds[] = { 0.0, 1.0, -1.5, 3.14159265, 1e-7, 123456.789, -99999.5, 0.1 }; a.D[nd++] = ds[r.below(8)]; a.genser += 8; break; }
+		case 's': case '3': {
+			a.gs[ng] = make_str(r, (size_t)r.below(21)); a.gstr[ng] = true;
+			a.genser += (c.cls == '3' ? std::min<size_t>(3, a.gs[ng].size()) : a.gs[ng].size()) + 1;
+			ng++;
+			break; }
+		case 'S': a.G[ng++] = (uint64_t)r.below(12); a.gs[ng] = make_str(r, (size_t)r.below(21)); a.gstr[ng] = true; a.genser += 4 + a.gs[ng].size() + 1; ng++; break;
+		case 'W': a.G[ng++] = (uint64_t)(int64_t)r.range(-12, 12); a.G[ng++] = (uint64_t)(int64_t)pick_int(r); a.genser += 8; break;
+		default: break;
+		}
+	}
+	for (int k = 0; k < 8; k++) if (a.gstr[k]) a.G[k] = (uint64_t)(uintptr_t)a.gs[k].c_str();
 }
 
 static void make_args(int fid, uint64_t aseed, uint32_t serial, uint32_t mll, Args &a)
@@ -218,6 +275,8 @@ static void make_args(int fid, uint64_t aseed, uint32_t serial, uint32_t mll, Ar
 		a.s2 = make_str(r, (size_t)r.range(0, 200));
 		a.s3 = make_str(r, (size_t)r.range(20, 400));
 	}
+	if (f.shape == SH_GEN) make_gen(r, a);
+	if (f.shape == SH_ULD) a.s1.resize(std::min<size_t>(a.s1.size(), 40));
 	if (f.shape == SH_FILL) {
 		uint32_t k = (uint32_t)r.below(100);
 		size_t n = k < 60 ? (size_t)r.below(100) : k < 85 ? (size_t)r.below(480) : (size_t)r.range((int64_t)mll - 30, (int64_t)mll + 200);
@@ -247,6 +306,8 @@ static size_t ser_size(const std::string &fmt, int shape, const Args &a)
 	case SH_UP: n += 4 + 8; break;
 	case SH_UDS: n += 4 + 4 + a.s1.size() + 1; break;
 	case SH_USS: n += 4 + a.s1.size() + a.s2.size() + 2; break;
+	case SH_GEN: n += 4 + a.genser; break;
+	case SH_ULD: n += 4 + 16 + 4 + a.s1.size() + 1; break;
 	}
 	return n;
 }
@@ -274,6 +335,8 @@ static std::string expect_text(const char *fmt, int shape, const Args &a)
 	case SH_UP: n = snprintf(b.data(), b.size(), fmt, a.u, a.p); break;
 	case SH_UDS: n = snprintf(b.data(), b.size(), fmt, a.u, a.d1, a.s1.c_str()); break;
 	case SH_USS: n = snprintf(b.data(), b.size(), fmt, a.u, a.s1.c_str(), a.s2.c_str()); break;
+	case SH_GEN: n = snprintf(b.data(), b.size(), fmt, (uint64_t)a.u, a.G[0], a.G[1], a.G[2], a.G[3], a.G[4], a.G[5], a.D[0], a.D[1], a.D[2], a.D[3], a.D[4], a.D[5]); break;
+	case SH_ULD: n = snprintf(b.data(), b.size(), fmt, a.u, (long double)a.f, a.d1, a.s1.c_str()); break;
 	}
 	if (n < 0) n = 0;
 	if ((size_t)n >= b.size()) n = (int)b.size() - 1;
@@ -298,6 +361,8 @@ static void do_log(const char *fn, const char *file, const char *fmt, uint8_t pr
 	case SH_UP: qb_log_from_external_source(fn, file, fmt, prio, line, tags, a.u, a.p); break;
 	case SH_UDS: qb_log_from_external_source(fn, file, fmt, prio, line, tags, a.u, a.d1, a.s1.c_str()); break;
 	case SH_USS: qb_log_from_external_source(fn, file, fmt, prio, line, tags, a.u, a.s1.c_str(), a.s2.c_str()); break;
+	case SH_GEN: qb_log_from_external_source(fn, file, fmt, prio, line, tags, (uint64_t)a.u, a.G[0], a.G[1], a.G[2], a.G[3], a.G[4], a.G[5], a.D[0], a.D[1], a.D[2], a.D[3], a.D[4], a.D[5]); break;
+	case SH_ULD: qb_log_from_external_source(fn, file, fmt, prio, line, tags, a.u, (long double)a.f, a.d1, a.s1.c_str()); break;
 	}
 }
 #pragma clang diagnostic pop
@@ -318,7 +383,8 @@ static void gen_logs(Rng &r, Plan &p, int n, const bool hz[HZ_N])
 	for (int k = 0; k < n; k++) {
 		int fid;
 		uint32_t c = (uint32_t)r.below(100);
-		if (c < 82) fid = (int)r.below(N_BASE_FMTS);
+		if (c < 70 || (c < 82 && !hz[HZ_GEN])) fid = (int)r.below(N_BASE_FMTS);
+		else if (c < 82) fid = r.chance(1, 12) ? 31 : 30;
 		else {
 			fid = N_BASE_FMTS + (int)r.below((uint64_t)(N_FMTS - N_BASE_FMTS));
 			if (!hz[FMTS[fid].hazard]) fid = (int)r.below(N_BASE_FMTS);
@@ -406,6 +472,7 @@ static void gen(const char *prop, RunSpec &spec)
 	hz[HZ_PREC] = !avoid("fmt-precision-sticks") && r.chance(1, 3);
 	hz[HZ_WIDE] = !avoid("text-longer-than-511") && r.chance(1, 4);
 	hz[HZ_SSS] = !avoid("string-after-overflow") && r.chance(1, 4);
+	hz[HZ_GEN] = !avoid("fmt-generated") && r.chance(1, 2);
 	bool dz[D_N];
 	for (int k = 0; k < D_N; k++) dz[k] = true;
 	if (avoid("damage-format-bytes")) dz[D_FMT] = false;
@@ -507,7 +574,7 @@ static void gen(const char *prop, RunSpec &spec)
 struct Rec {
 	uint32_t serial, lineno, tags;
 	uint8_t prio;
-	std::string fn, text, prefix;
+	std::string fn, text, prefix, fmt;
 	size_t ser;          // serialized size
 	int hazard;          // hazard group of the format it was logged with
 	bool overlong;       // the library may replace the text by its notice
@@ -1033,9 +1100,9 @@ static void check_pristine(const std::string &out, int rc)
 			size_t k = 0;
 			while (k < g.msg.size() && k < want.size() && g.msg[k] == want[k]) k++;
 			const char *cls = e.hazard == HZ_PCT ? "roundtrip-message-after-percent-literal" : e.hazard == HZ_PREC ? "roundtrip-message-after-precision" :
-					  e.hazard == HZ_WIDE ? "roundtrip-message-long-text" : "roundtrip-message";
-			VIOL(15, cls, PSITE, "record #%u: text differs at char %zu (logged %zu chars, printed %zu; serialized size %zu, line length %u): logged \"%.50s\" printed \"%.50s\"",
-			     e.serial, k, want.size(), g.msg.size(), e.ser, G.mll, want.c_str() + (k > 10 ? k - 10 : 0), g.msg.c_str() + (k > 10 ? k - 10 : 0));
+					  e.hazard == HZ_WIDE ? "roundtrip-message-long-text" : e.hazard == HZ_GEN ? "roundtrip-message-generated-format" : "roundtrip-message";
+			VIOL(15, cls, PSITE, "record #%u: text differs at char %zu (logged %zu chars, printed %zu; serialized size %zu, line length %u): logged \"%.50s\" printed \"%.50s\" format \"%.80s\"",
+			     e.serial, k, want.size(), g.msg.size(), e.ser, G.mll, want.c_str() + (k > 10 ? k - 10 : 0), g.msg.c_str() + (k > 10 ? k - 10 : 0), e.fmt.c_str());
 		}
 	}
 	if (!failed()) { G.checked += m; count(p_print_pristine); }
@@ -1069,6 +1136,7 @@ static void op_log(const Op &op)
 	make_args(fid, (uint64_t)op.a[1], serial, G.mll, a);
 	std::string fmt = f.fmt;
 	if (f.shape == SH_FILL) fmt += a.fill;
+	if (f.shape == SH_GEN) fmt += a.genfmt;
 	Rec rec;
 	rec.serial = serial;
 	rec.lineno = G.lineno_base + serial;
@@ -1102,6 +1170,7 @@ static void op_log(const Op &op)
 	}
 	rec.ser = ser_size(fmt, f.shape, a);
 	rec.hazard = f.hazard;
+	rec.fmt = fmt.substr(0, 80);
 	rec.overlong = rec.ser + 8 >= G.mll;
 	char tb[64], pre[512];
 	struct tm tmv;
